@@ -17,6 +17,9 @@ from . import findings as F
 from .util import dumps, sig_str
 
 VERIF = os.path.dirname(os.path.dirname(os.path.abspath(__file__)))
+# evidence/ and replays/ are written under VERIF_OUT (default: /verif itself); the self-tests that
+# run the checks against a mutated scratch tree point it elsewhere
+OUT = os.environ.get("VERIF_OUT", VERIF)
 PY = sys.executable
 
 LEVELS = {"C03": "fault_enumeration", "C04": "fault_enumeration", "C17": "fault_enumeration"}
@@ -125,6 +128,12 @@ def summarise(check, tier, seed, recs, harness_notes, workdir, t0, registry):
         if r.get("distinct_key") is not None:
             distinct.add(json.dumps(r["distinct_key"]))
         seam_missing.update(r.get("seam_missing") or [])
+    cells = {}
+    for r in good:
+        if r.get("cell"):
+            key = json.dumps(r["cell"])
+            oc = (r.get("outcomes") or [None])[0]
+            cells.setdefault(key, set()).add(oc)
     # ---- violations of this property
     mine = []
     for r in good:
@@ -168,7 +177,7 @@ def summarise(check, tier, seed, recs, harness_notes, workdir, t0, registry):
     # ---- minimise + replay the unlisted ones (bounded number of classes)
     violation_paths = []
     replay_failures = []
-    os.makedirs(os.path.join(VERIF, "replays", check), exist_ok=True)
+    os.makedirs(os.path.join(OUT, "replays", check), exist_ok=True)
     for engine, sig, vs in unlisted[:6]:
         v = vs[0]
         run = v["_run"]
@@ -180,7 +189,7 @@ def summarise(check, tier, seed, recs, harness_notes, workdir, t0, registry):
         if gen.returncode != 0:
             replay_failures.append(f"mkplan failed for run {run}: {gen.stderr[-400:]}")
             continue
-        out_path = os.path.join(VERIF, "replays", check, f"{seed}-{run}-{engine}.json")
+        out_path = os.path.join(OUT, "replays", check, f"{seed}-{run}-{engine}.json")
         sh = subprocess.run([PY, "-m", "sim.shrink", "--engine", engine, "--plan", plan_path,
                              "--prop", check, "--sig", sig, "--out", out_path, "--wall", "40"],
                             cwd=VERIF, env=env, capture_output=True, text=True, timeout=600)
@@ -231,6 +240,13 @@ def summarise(check, tier, seed, recs, harness_notes, workdir, t0, registry):
         known_findings_matched={k: n for k, (f, n) in known_lines.items()},
         engine_pairs_compared=getattr(compare_engines, "pairs", 0) if check == "C20" else None,
         unlisted_violation_classes=[s for s, _, _ in violation_paths],
+        matrix_cells=(dict(total=19152, visited=len(cells),
+                           solved=sum(1 for v in cells.values() if "solved" in v),
+                           refused=sum(1 for v in cells.values() if "refused" in v),
+                           crashed=sum(1 for v in cells.values() if "crashed" in v))
+                      if cells else None),
+        simulated_time=dict(unit="kernel epochs / outer iterations / operations (logical time; the "
+                                 "library has no clock)", **logical),
         real_code=["all of skglm (solvers, datafits, penalties, estimators, utils) from "
                    + os.environ.get("VERIF_REPO", "/repo")],
         stubs=["sklearn.base.BaseEstimator._validate_data (removed in scikit-learn 1.9; two "
@@ -241,8 +257,8 @@ def summarise(check, tier, seed, recs, harness_notes, workdir, t0, registry):
     ev = dict(property_id=check, tier=tier, seed=seed, level=LEVELS.get(check, "exploration"),
               coverage=coverage, assumptions=assumptions, wall_s=round(wall, 2),
               violations=len(violation_paths))
-    os.makedirs(os.path.join(VERIF, "evidence"), exist_ok=True)
-    with open(os.path.join(VERIF, "evidence", f"{check}.json"), "w") as f:
+    os.makedirs(os.path.join(OUT, "evidence"), exist_ok=True)
+    with open(os.path.join(OUT, "evidence", f"{check}.json"), "w") as f:
         f.write(dumps(ev, indent=1))
     print(f"[{check}] runs={evaluations} ({by_engine}) distinct={len(distinct)} "
           f"stops={counts.get('stops', 0)} inconclusive={len(inconclusive)} died={len(died)} "
